@@ -54,7 +54,7 @@ func TestConnect(t *testing.T) {
 	if pbt.Tier() == "thorough" {
 		p.MaxTx, p.MaxOps = 25, 150
 	}
-	pbt.Check(t, pbt.Cfg{Name: "connect", Quick: 1200, Thorough: 40000}, func(r *pbt.Run) {
+	pbt.Check(t, pbt.Cfg{Name: "connect", Quick: 1200, Thorough: 15000}, func(r *pbt.Run) {
 		c := sim.GenCase(r.T, p)
 		r.Case(c)
 		s, err := sim.RunCaseOpen(c, env.Options{}, sim.Hooks{}, pbt.FindingOpen)
